@@ -204,6 +204,7 @@ def parseObserved (s : String) : Option (List Ev) :=
     | "ret" :: tok :: _ => do let tok ← tok.toNat?; some (Ev.returned tok :: acc)
     | ["wret", sd, tok, r] => do let sd ← parseSide sd; let tok ← tok.toNat?; some (Ev.wrote (sideNat sd) tok (r == "ok") :: acc)
     | ["queue", n] => n.toNat?.map (fun n => Ev.settled n :: acc)
+    | ["stuck", sd] => do let sd ← parseSide sd; some (Ev.stuck (sideNat sd) :: acc)
     | ["err", _] => some acc
     | "sizes" :: _ => some acc
     | _ => none) (some [])
